@@ -392,7 +392,8 @@ def main(chk: core.Check) -> int:
     bad = [g for g in gs if not g["ok"]]
     if bad:
         chk.obligation_broken("translator", "regenerate the kernels / the record parsers (detectors/__init__.py -> Gen/DetParse.lean)", bad[0]["error"])
-    chk.prove(modules=["C14", "Nested", "DetParseTie"], extra_allowed=bv_axiom_any)
+    _entry = ["EntryTie"] if core.regen_entry(chk) else []
+    chk.prove(modules=["C14", "Nested", "DetParseTie"] + _entry, extra_allowed=bv_axiom_any)
     try:
         ids = run_functions(chk, thorough)
         if ids is not None:
